@@ -13,7 +13,7 @@ ASSUMPTIONS = ['reference structure/erasure in vlib/refcat.py', 'feature names t
                'values are read through the public attributes base/feature/left/slash/right']
 REQUIRED_MONITORS = {'contract:__eq__': 1000, 'contract:__xor__': 1000, 'contract:clear_features': 1000,
                      'law:hash': 500, 'law:dict-lookup': 500, 'law:xor-transitive': 100,
-                     'law:hash-after-pickle': 100}
+                     'law:hash-after-pickle': 100, 'law:shared-parts': 1000}
 NSHARDS = 14
 FEATS = (None, 'X', 'nb', 'dcl')
 
